@@ -56,7 +56,12 @@ CALLS = [
     ('vs_ath',   'cache', "U.valid_against_schema('sample-jsons/athlete.json', 'json/athlete.json')"),
     ('vs_perf',  'cache', "U.valid_against_schema('sample-jsons/performance.json', 'json/performance.json')"),
     ('vs_bad',   'cache', "U.valid_against_schema('sample-jsons/athlete_invalid.json', 'json/athlete.json')"),
+    ('vs_bad_ef', 'cache', "U.valid_against_schema('sample-jsons/athlete_invalid.json', 'json/athlete.json', expect_failure=True)"),
+    ('sv_bad_ef', 'cache', "U.schema_valid('json/athlete.json', validator=jsonschema.Draft3Validator, expect_failure=True)"),
+    ('sv_bad',   'cache', "U.schema_valid('json/athlete.json', validator=jsonschema.Draft3Validator)"),
 ]
+# the plain twin of an expect_failure call: run beforehand it leaves the failure in the cache (variant 'bad-cached')
+TWIN = {'vs_bad_ef': 'vs_bad', 'sv_bad_ef': 'sv_bad'}
 CALL = {c[0]: c for c in CALLS}
 
 # state variants: name -> (number of dummy entries put in every cache dict, which calls are run once
@@ -64,6 +69,7 @@ CALL = {c[0]: c for c in CALLS}
 VARIANTS = {
     'first': (0, 'none'), 'warm': (0, 'all'), 'warm-first': (0, 'first'),
     'c19': (19, 'none'), 'c20': (20, 'none'), 'c19+first': (19, 'first'), 'c18+all': (18, 'all'),
+    'bad-cached': (0, 'twin'), 'c19+bad-cached': (19, 'twin'),
 }
 LAZY_VARIANTS = ['first', 'warm', 'warm-first']
 CACHE_VARIANTS = ['first', 'c19', 'c20', 'c19+first', 'c18+all', 'warm']
@@ -79,6 +85,7 @@ CORE_PAIRS = [
     ('aaf_m60h', 'aaf_flj'), ('aaf_m60h', 'aaf_m60h'), ('aag_m60h', 'aaf_flj'), ('aaf_young', 'aag_bad'),
     ('sv_meta', 'sv_perf'), ('sv_perf', 'sv_meta'), ('sv_meta', 'sv_meta'), ('sv_race4', 'vs_ath'), ('vs_ath', 'vs_perf'),
     ('vs_perf', 'vs_ath'), ('vs_bad', 'vs_ath'), ('vs_ath', 'vs_ath'),
+    ('vs_bad_ef', 'vs_bad_ef'), ('vs_bad', 'vs_bad_ef'), ('sv_bad_ef', 'sv_bad_ef'),
 ]
 # cross-group pairs (share nothing, or only the grader classes): a few, for completeness
 CROSS_PAIRS = [('as_age', 'aaf_m60h'), ('af_m100', 'af15_m100'), ('as_m100', 'hs_m100'), ('sh_slj', 'sv_meta'),
@@ -186,7 +193,7 @@ class World:
         self.restore(self.pristine)
         for o, k in self.cache_slots:
             setattr(o, k, {(DUMMY, i): True for i in range(nd)})
-        todo = {'none': [], 'all': list(names), 'first': list(names[:1])}[warm]
+        todo = {'none': [], 'all': list(names), 'first': list(names[:1]), 'twin': [TWIN[n] for n in names if n in TWIN]}[warm]
         for n in todo:
             self.call(n)
         return self.snapshot()
@@ -419,6 +426,7 @@ FRESH_CHECKED = {('as_m100', 'as_flj'), ('hs_m100', 'hs_flj'), ('sh_slj', 'sh_10
 
 
 def variants_for(names):
+    if any(n in TWIN for n in names): return CACHE_VARIANTS + ['bad-cached', 'c19+bad-cached']
     return CACHE_VARIANTS if any(CALL[n][1] == 'cache' for n in names) else LAZY_VARIANTS
 
 
@@ -464,7 +472,7 @@ def plan(ctx):
     items = []
     for pair in core + extra + CROSS_PAIRS:
         for v in variants_for(pair):
-            if quick and pair not in QUICK_FULL and v not in ('first', 'c19', 'c19+first'):
+            if quick and pair not in QUICK_FULL and v not in ('first', 'c19', 'c19+first', 'bad-cached'):
                 continue
             if v == 'warm-first' and (quick or pair[0] == pair[1]):
                 continue
@@ -509,7 +517,8 @@ THEOREMS = [P + t for t in (
     'AthlibVerif.Access.noMutateOfPublished_spec', 'AthlibVerif.Access.lockedMutations_spec']
 # pairs that get every state variant in the quick tier too (one or two per group of shared state)
 QUICK_FULL = {('as_m100', 'as_flj'), ('hs_m100', 'hs_flj'), ('sh_slj', 'sh_100'), ('af_m100', 'af_f5k'), ('wb_m5k', 'wb_f7k'),
-              ('af15_m100', 'af15_f5k'), ('aaf_m60h', 'aaf_flj'), ('sv_meta', 'sv_perf'), ('vs_ath', 'vs_perf'), ('gr_m5k', 'af_f5k')}
+              ('af15_m100', 'af15_f5k'), ('aaf_m60h', 'aaf_flj'), ('sv_meta', 'sv_perf'), ('vs_ath', 'vs_perf'), ('gr_m5k', 'af_f5k'),
+              ('vs_bad_ef', 'vs_bad_ef')}
 
 
 def run(ctx):
